@@ -215,7 +215,9 @@ def stepOracle (st : St) (ws : List String) (obs : Json) : St × List String :=
         (if force || (due t0 && due now) then (if bumped then [] else ["DueIsReissued", "NumberPlusOne"])
          else if !(due t0) && !(due now) then (if same then [] else ["NothingDueNothingChanges"])
          else [])
-  let p7 := match ws with
+  -- (`task renew` drains every due task: judged only when nothing but renewals was stored)
+  let onlyRenewals := (caCmds obs).all fun (_, c) => jstr (jpath c ["details", "type"]) == "reissue_before_expiring"
+  let p7 := if !onlyRenewals then [] else match ws with
     | ["renew"] | ["task", "renew"] =>
       (handlesOf obs "cas").flatMap fun h =>
         if jisNull (jpath st.prev ["cas", h]) then [] else
